@@ -452,6 +452,88 @@ def _same_leaf(a, b):
   return np.array_equal(a, b)
 
 
+def run_nnx_pop(ctx):
+  """nnx.pop is the in-place split: the popped states are the first-match partition of the selected Variables, and what is NOT
+  selected stays in the node - under every path it was reachable by (tied weights: one Variable referenced from two places)."""
+  import jax.numpy as jnp
+  from flax import nnx
+
+  class Node(nnx.Module):
+    pass
+
+  class Cache(nnx.Variable):
+    pass
+
+  def build():
+    m = Node()
+    m.enc, m.dec = Node(), Node()
+    m.enc.emb = nnx.Param(jnp.asarray([1.0, 2.0]), tag='t1')
+    m.dec.emb = m.enc.emb                       # tied
+    m.enc.w = nnx.Param(jnp.asarray(3.0))
+    m.dec.stat = nnx.BatchStat(jnp.asarray(4.0), tag='t2')
+    m.dec.stat2 = m.dec.stat                    # tied, same holder
+    m.enc.im = nnx.Intermediate(jnp.asarray(5.0))
+    m.cache = Cache(jnp.asarray(6.0), tag='t1')
+    m.blocks = [Node(), Node()]
+    m.blocks[0].k = m.enc.w                     # tied through a list element
+    m.blocks[1].c = Cache(jnp.asarray(7.0))
+    return m
+
+  def refs(m):
+    """every (path, variable) reference, shared ones under each of their paths"""
+    out = {}
+    def walk(node, path):
+      for k, v in (enumerate(node) if isinstance(node, list) else sorted(vars(node).items())):
+        if isinstance(k, str) and k.startswith('_'):
+          continue
+        if isinstance(v, nnx.Variable):
+          out[path + (k,)] = v
+        elif isinstance(v, (Node, list)):
+          walk(v, path + (k,))
+    walk(m, ())
+    return out
+
+  atoms = {'Param': nnx.Param, 'BatchStat': nnx.BatchStat, 'Intermediate': nnx.Intermediate, 'Cache': Cache, 't1': 't1', 't2': 't2',
+           'notParam': nnx.Not(nnx.Param), 'anyIC': nnx.Any(nnx.Intermediate, Cache), 'none': None}
+  def matches(name, v):
+    if name in ('t1', 't2'):
+      return v.get_metadata().get('tag') == name
+    if name == 'notParam':
+      return not isinstance(v, nnx.Param)
+    if name == 'anyIC':
+      return isinstance(v, (nnx.Intermediate, Cache))
+    if name == 'none':
+      return False
+    return isinstance(v, atoms[name])
+  names = list(atoms)
+  tuples = [(a,) for a in names] + [(a, b) for a in names for b in names if a != b]
+  for i, ft in ctx.items(tuples, 'nnx.pop'):
+    with ctx.case('nnx.pop', i, ft, nontrivial=True):
+      m = build()
+      before = refs(m)
+      ids = {p: id(v) for p, v in before.items()}
+      got = nnx.pop(m, *[atoms[a] for a in ft])
+      ctx.op('nnx.pop')
+      got = got if isinstance(got, tuple) else (got,)
+      after = refs(m)
+      # expected: variable v goes to the first filter that matches it
+      group_of = {}
+      for p, v in before.items():
+        for k, a in enumerate(ft):
+          if matches(a, v):
+            group_of[id(v)] = k
+            break
+      want_left = {p for p, v in before.items() if id(v) not in group_of}
+      ctx.check(set(after) == want_left and all(id(after[p]) == ids[p] for p in after), 'nnx.pop:unselected_reference_lost_or_selected_left',
+                lambda: dict(filters=ft, lost=sorted(map(repr, want_left - set(after))), left_behind=sorted(map(repr, set(after) - want_left))))
+      for k in range(len(ft)):
+        popped_ids = set()
+        flat = nnx.to_flat_state(got[k])
+        want_n = len({id(v) for v in before.values() if group_of.get(id(v)) == k})
+        ctx.check(len(list(flat)) == want_n, 'nnx.pop:popped_group', lambda: dict(filters=ft, group=k, got=len(list(flat)), want=want_n))
+
+
 def run(ctx):
+  run_nnx_pop(ctx)
   run_linen(ctx, 2 if ctx.tier == 'quick' else 4)
   run_nnx(ctx, 2 if ctx.tier == 'quick' else 3)
